@@ -74,6 +74,8 @@ pub struct Scenario {
     /// spawn poll_for_azks_changes on the ReadOnly instance (period 1 virtual second)
     pub poller: bool,
     pub gate_vrf: bool,
+    /// delivery of every database response is a scheduling point of its own
+    pub post_gates: bool,
     pub faults: u32,
     pub faultable: fn(&OpDesc) -> bool,
 }
@@ -81,13 +83,14 @@ pub struct Scenario {
 impl Scenario {
     pub fn describe(&self) -> String {
         format!(
-            "initial=[{}] lag=[{}] warmup=[{}] wcache={:?} rcache={:?} poller={} actors: {}",
+            "initial=[{}] lag=[{}] warmup=[{}] wcache={:?} rcache={:?} poller={} response_gates={} actors: {}",
             show_history(&self.initial),
             show_history(&self.lag_publishes),
             self.reader_warmup.iter().map(show_op).collect::<Vec<_>>().join(","),
             self.writer_cache,
             self.reader_cache,
             self.poller,
+            self.post_gates,
             self.actors
                 .iter()
                 .map(|a| format!("{}@{:?}[{}]", a.name, a.inst, a.ops.iter().map(show_op).collect::<Vec<_>>().join(";")))
@@ -133,6 +136,7 @@ async fn do_op<TC: ModelCfg, R: Reader<TC>>(r: &R, w: Option<&Dir<TC>>, op: &Op)
 pub fn run_scenario<TC: ModelCfg>(sc: &Scenario, chooser: &mut Chooser) -> RunOut {
     let ch = std::mem::replace(chooser, Chooser::default_run());
     let sched = Sched::new(ch, sc.gate_vrf);
+    sched.post_gates.store(sc.post_gates, std::sync::atomic::Ordering::SeqCst);
     {
         let mut st = sched.st.lock().unwrap();
         st.mode = Mode::Free;
